@@ -6,7 +6,7 @@ CONSTANTS
   Maint = "nondet"
   DirsExist = TRUE
   Pre <- NoProcs
-  WriteFallback = TRUE
+  WriteFallback = FALSE
   CrashBudget = 0
   AdvBudget = 0
 POSTCONDITION Accepted
